@@ -5,15 +5,15 @@ STEP = r"^discr\(Iterator::next\(IntoIterator::into_iter\(Iterator::step_by\(Ran
 TABLE = {
     ('ordinals::edict::Edict::from_integers', 'unwrap', 'unwrap(ptr_try_from_impls::try_from(Vec::len(tx.output)))'): {
         'reason': 'u32::try_from(tx.output.len()): a transaction inside a consensus-valid block has far fewer than 2^32 outputs (each output is at least 9 bytes; block weight limit 4 MWU)'},
-    (ENC, 'unwrap', 'unwrap(RuneId::delta(previous,Iterator::next(IntoIterator::into_iter(edicts)).v:Some.0.id))'): {
+    (ENC, 'unwrap', 'unwrap(RuneId::delta(previous,Iterator::next(IntoIterator::into_iter(Clone::clone(self.edicts))).v:Some.0.id))'): {
         'reason': 'edicts are sorted by id before the loop (checked by R25.1), so each id is >= the previous one and RuneId::delta (checked_sub) is Some',
         'requires': [r'^Vec::is_empty\(self\.edicts\)==False$']},
-    (ENC, 'unwrap', 'unwrap(TryInto::try_into(Iterator::next(IntoIterator::into_iter(slice::chunks(tmp,tmp))).v:Some.0))'): {
+    (ENC, 'unwrap', 'unwrap(TryInto::try_into(Iterator::next(IntoIterator::into_iter(slice::chunks(Deref::deref(Vec::new()),Result::unwrap(TryInto::try_into(…))))).v:Some.0))'): {
         'reason': '&[u8] -> &PushBytes fails only above u32::MAX bytes and the chunk comes from chunks(u32::MAX)',
         'requires': [r"^discr\(Iterator::next\(IntoIterator::into_iter\(slice::chunks\(.*\)\)\)\) in \['1'\]$"]},
-    (MSG, 'index', 'index(Iterator::next(IntoIterator::into_iter(Iterator::step_by(Range{0,tmp},2))).v:Some.0,PtrMetadata(payload))'): {
+    (MSG, 'index', 'index(Iterator::next(IntoIterator::into_iter(Iterator::step_by(Range{0,slice::len(payload)},2))).v:Some.0,PtrMetadata(payload))'): {
         'reason': 'i is drawn from (0..payload.len()).step_by(2), so i < payload.len()', 'requires': [STEP]},
-    (MSG, 'index-call', 'index(payload,RangeFrom{Add(Iterator::next(tmp).v:Some.0,1)})'): {
+    (MSG, 'index-call', 'index(payload,RangeFrom{Add(Iterator::next(IntoIterator::into_iter(Iterator::step_by(Range{…,…},2))).v:Some.0,1)})'): {
         'reason': 'i < payload.len() (drawn from 0..len), so i + 1 <= len is a valid RangeFrom start', 'requires': [STEP]},
     ('ordinals::runestone::tag::Tag::take', 'unwrap', 'unwrap(HashMap::remove(fields,Into::into(self)))'): {
         'reason': 'the entry for this tag was obtained by get_mut(&self.into()) at the top of the function and nothing removed it since',
